@@ -302,8 +302,9 @@ void Socket::setStatusCode(int statusCode, const QByteArray &statusReason)
 
 void Socket::setHeader(const QByteArray &name, const QByteArray &value, bool replace)
 {
-    if (replace || d->responseHeaders.count(name)) {
-        d->responseHeaders.replace(name, value);
+    if (replace || !d->responseHeaders.contains(name)) {
+        d->responseHeaders.remove(name);
+        d->responseHeaders.insert(name, value);
     } else {
         d->responseHeaders.replace(name, d->responseHeaders.value(name) + ", " + value);
     }
